@@ -1,0 +1,42 @@
+//! Verification hooks. Only compiled with `--cfg grmtools_verif`; never part of a normal build.
+//!
+//! Counters that let a harness see which parts of the state-graph construction a grammar reaches
+//! (they observe; they never change what is built).
+use std::cell::Cell;
+
+thread_local! {
+    static REPROCESSED: Cell<u64> = const { Cell::new(0) };
+    static NEW_WHILE_REPROCESSING: Cell<u64> = const { Cell::new(0) };
+    static GC_REMOVED: Cell<u64> = const { Cell::new(0) };
+}
+
+/// What the last state-graph constructions on this thread did since `reset()`:
+/// (states sent back for re-processing after a weak merge changed them, states created while a
+/// re-processed state was handled, states removed by the final garbage collection).
+pub fn pager_counters() -> (u64, u64, u64) {
+    (
+        REPROCESSED.with(|c| c.get()),
+        NEW_WHILE_REPROCESSING.with(|c| c.get()),
+        GC_REMOVED.with(|c| c.get()),
+    )
+}
+
+pub fn reset() {
+    REPROCESSED.with(|c| c.set(0));
+    NEW_WHILE_REPROCESSING.with(|c| c.set(0));
+    GC_REMOVED.with(|c| c.set(0));
+}
+
+pub(crate) fn note_reprocess() {
+    REPROCESSED.with(|c| c.set(c.get() + 1));
+}
+
+pub(crate) fn note_new_state(while_reprocessing: bool) {
+    if while_reprocessing {
+        NEW_WHILE_REPROCESSING.with(|c| c.set(c.get() + 1));
+    }
+}
+
+pub(crate) fn note_gc(before: usize, after: usize) {
+    GC_REMOVED.with(|c| c.set(c.get() + (before - after) as u64));
+}
